@@ -110,6 +110,15 @@ func (p *VarHeaderPostprocessor) substr(args []string) (func(in string) string, 
 		if end <= 0 {
 			end = l + end
 		}
+		if start < 0 {
+			start = 0
+		}
+		if start > l {
+			start = l
+		}
+		if end < 0 {
+			end = 0
+		}
 		if end > l {
 			end = l
 		}
